@@ -1,5 +1,5 @@
 SPECIFICATION Spec
-CONSTANT MaxOps = 4
+CONSTANT MaxOps = 5
 CONSTANT MaxCrash = 3
 CONSTANT NKeys = 2
 CONSTRAINT Bound
